@@ -6,6 +6,14 @@ restricted to the pixels of a crop whose dependency cone lies inside the crop, m
 processing the crop alone (crop coordinates starting at the crop origin, and the same crop re-based at 0); and the
 result on the vertically flipped pair must be the vertically flipped result.
 
+Second image domain (zncc pipelines only): 96x72 pairs with integer-valued 12-bit radiometry (0..4095).  The zncc cost is
+built on window means obtained from running sums over the whole image (pandora.img_tools.compute_mean_raster /
+compute_std_raster); on this domain every value, square and left*right product is an integer < 2**24 and every running
+sum an integer < 2**53, so a window sum is the exact integer whatever precedes the window, and the statement can be
+checked bit-exactly -- while any accumulation narrower than float64 (float32 running sums exceed 2**24 after two rows
+of squares) makes the result depend on the crop origin.  The two raster functions are also compared directly
+(crop of the whole-image raster vs raster of the crop).
+
 Cone (computed here from the configuration only, conservatively -- a larger cone only compares fewer pixels):
     R      = window//2  [+ cbca_distance + 1 (arms + 3x3 median prefilter)]  [+ filter_size//2 | + ceil(int(3*sigma_space+1)/2)]
     rows   : R                       columns : R + D (D = max(|dmin|,|dmax|)),  R + 2*D with cross-checking
@@ -23,39 +31,50 @@ from affine import Affine
 from bounded.common import Recorder, same
 
 H, W = 40, 60
+HI_SHAPE, HI_BITS = (96, 72), 12  # second domain: integer-valued 12-bit radiometry (zncc pipelines and raster functions)
 PARITY = "half-integer-left-disparity@odd-column-offset"  # x.5 + column index rounds to the even neighbour
 INVALID_BITS = 0b01111000011  # user guide, validity mask: bits 0, 1, 6, 7, 8, 9 mark an invalid pixel
 _FUNCS = ["pandora.run", "pandora.check_configuration.check_pipeline_section",
           "pandora.check_configuration.check_datasets", "pandora.state_machine.PandoraMachine.check_conf",
           "pandora.state_machine.PandoraMachine.run_prepare", "pandora.state_machine.PandoraMachine.run",
           "pandora.img_tools.add_disparity"]
+_FUNCS_HI = ["pandora.img_tools.compute_mean_raster", "pandora.img_tools.compute_std_raster"]
 
 
 # ----------------------------------------------------------------------------------------------------------- inputs
-def make_pair(img_seed, interval, masks):
-    """integer-valued 40x60 pair: blocky texture + noise in [0, 32); right = left shifted (two shifts, one per half
-    of the rows, strictly inside the disparity interval) + noise in {-1, 0, 1}; optional masks (0 valid, 1 no data,
-    2 invalid)"""
+def make_pair(img_seed, interval, masks, bits=5, shape=None):
+    """integer-valued pair (default 40x60): blocky texture + noise in [0, 32); right = left shifted (two shifts, one per
+    half of the rows, strictly inside the disparity interval) + noise in {-1, 0, 1}; optional masks (0 valid, 1 no data,
+    2 invalid).  bits=12: same construction with blocks in [0, 3200), noise in [0, 896), right noise in [-48, 48],
+    values in 0..4095 (squares and products stay below 2**24, hence exact in float32)"""
     rng = np.random.default_rng([int(img_seed), 13])
+    h_, w_ = (H, W) if shape is None else (int(shape[0]), int(shape[1]))
+    if int(bits) == 5:
+        n_block, n_noise, a_right, vmax = 25, 8, 1, 31
+    elif int(bits) == 12:
+        n_block, n_noise, a_right, vmax = 3200, 896, 48, 4095
+    else:
+        raise ValueError("bits must be 5 or 12")
     dmin, dmax = interval
     pad = 8
-    blocks = rng.integers(0, 25, size=(H // 4 + 1, (W + 2 * pad) // 3 + 1))
-    base = np.kron(blocks, np.ones((4, 3), dtype=np.int64))[:H, :W + 2 * pad] + rng.integers(0, 8, size=(H, W + 2 * pad))
+    blocks = rng.integers(0, n_block, size=(h_ // 4 + 1, (w_ + 2 * pad) // 3 + 1))
+    base = (np.kron(blocks, np.ones((4, 3), dtype=np.int64))[:h_, :w_ + 2 * pad]
+            + rng.integers(0, n_noise, size=(h_, w_ + 2 * pad)))
     inner = list(range(dmin + 1, dmax)) or [dmin]
     d_top, d_bot = int(rng.choice(inner)), int(rng.choice(inner))
-    left = base[:, pad:pad + W].copy()
+    left = base[:, pad:pad + w_].copy()
     right = np.empty_like(left)
-    cols = np.arange(W)
-    for r in range(H):
-        d0 = d_top if r < H // 2 else d_bot
+    cols = np.arange(w_)
+    for r in range(h_):
+        d0 = d_top if r < h_ // 2 else d_bot
         right[r] = base[r, pad + cols - d0]  # left(c) == right(c + d0)
-    right = np.clip(right + rng.integers(-1, 2, size=(H, W)), 0, 31)
+    right = np.clip(right + rng.integers(-a_right, a_right + 1, size=(h_, w_)), 0, vmax)
     ml = mr = None
     if masks:
-        ml = np.zeros((H, W), dtype=np.int16)
-        mr = np.zeros((H, W), dtype=np.int16)
+        ml = np.zeros((h_, w_), dtype=np.int16)
+        mr = np.zeros((h_, w_), dtype=np.int16)
         for m in (ml, mr):
-            u = rng.random((H, W))
+            u = rng.random((h_, w_))
             m[u < 0.02] = 1
             m[(u >= 0.02) & (u < 0.05)] = 2
     return left.astype(np.float32), right.astype(np.float32), ml, mr
@@ -194,6 +213,64 @@ def crops_for(p, interval, tier, rng):
     return out
 
 
+def hi_crops(p, interval, tier, rng, shape=HI_SHAPE):
+    """crops of the 12-bit images: cone + interior, origins far from (0, 0) (the running sums before the crop are large),
+    at the image end, one row below the top (column offset 0) and at the top (column offset only)"""
+    hh, ww = shape
+    mr_, mc_ = cone(p, interval)
+    out = []
+    for ih, iw in ([(6, 8)] if tier == "quick" else [(6, 8), (3, 13)]):
+        h, w = 2 * mr_ + ih, 2 * mc_ + iw
+        if h > hh or w > ww:
+            continue
+        fixed = [(37, 23), (hh - h, ww - w), (1, 0)] if (ih, iw) == (6, 8) else [(50, 7)]
+        if tier == "quick":
+            want = fixed
+        else:
+            rows = sorted({r for r in (0, 1, 2, 5, 17, 37, 50, hh - h - 1, hh - h) if 0 <= r <= hh - h})
+            cols = sorted({c for c in (0, 1, 2, 7, 23, 31, ww - w - 1, ww - w) if 0 <= c <= ww - w})
+            rest = [(r, c) for r in rows for c in cols if (r, c) not in fixed]
+            k = 3 if (ih, iw) == (6, 8) else 1
+            want = fixed + [rest[i] for i in sorted(rng.choice(len(rest), size=k, replace=False))]
+        for r0, c0 in dict.fromkeys(want):
+            if 0 <= r0 <= hh - h and 0 <= c0 <= ww - w:
+                out.append((int(r0), int(c0), int(h), int(w)))
+    return out
+
+
+def raster_source(w):
+    """image the raster function is applied to: left, right or the float32 product left*right (as zncc builds it)"""
+    left, right, _, _ = make_pair(w["img_seed"], [-2, 2], False, w["bits"], w["shape"])
+    return {"left": left, "right": right, "left*right": left * right}[w["src"]]
+
+
+def raster_mismatch(w):
+    """per-function form of the statement: the window mean / standard deviation of a pixel whose window lies in the crop
+    is the same (bit for bit) in the raster of the crop and in the raster of the whole image"""
+    from pandora import img_tools
+    fn = {"mean_raster": img_tools.compute_mean_raster, "std_raster": img_tools.compute_std_raster}[w["fn"]]
+    win = int(w["win"])
+    img = raster_source(w)
+    r0, c0, h, wd = (int(v) for v in w["crop"])
+    whole = np.asarray(fn(dataset(img, None, 0, 0, None), win))
+    try:
+        part = np.asarray(fn(dataset(img[r0:r0 + h, c0:c0 + wd], None, 0, 0, None), win))
+    except Exception as exc:
+        return w["fn"], "%s of the crop raised %s: %s" % (w["fn"], type(exc).__name__, str(exc)[:200]), type(exc).__name__
+    # both rasters are truncated to the pixels whose window is inside: entry (i, j) is the window centred at (i+r, j+r)
+    ref = whole[r0:r0 + h - win + 1, c0:c0 + wd - win + 1]
+    if part.shape != ref.shape:
+        return w["fn"], "%s of the %dx%d crop has shape %s, expected %s" % (w["fn"], h, wd, part.shape, ref.shape), "shape"
+    if not same(ref, part):
+        bad = np.argwhere(~((ref == part) | ((ref != ref) & (part != part))))[0]
+        i, j = int(bad[0]), int(bad[1])
+        tag = "crop-origin-" + "+".join(n for n, v in (("row", r0), ("col", c0)) if v) + ">0"
+        return w["fn"], "compute_%s(window %d) of %s at image pixel (%d,%d): whole image %r, crop %s alone %r (%d of %d " \
+                        "entries differ)" % (w["fn"], win, w["src"], r0 + i + win // 2, c0 + j + win // 2, ref[i, j].item(),
+                                             [r0, c0, h, wd], part[i, j].item(), int((ref != part).sum()), ref.size), tag
+    return None
+
+
 # ------------------------------------------------------------------------------------------------------ comparisons
 def crop_mismatch(p, interval, pair, whole, crop, rebased):
     """None if the crop run agrees with the whole run on the cone interior, else (clause-part, message)"""
@@ -252,8 +329,10 @@ def flip_mismatch(p, interval, pair, whole):
 
 def evaluate(w):
     """re-evaluate one witness-shaped case; returns None or (clause part, message, diagnosis tag)"""
+    if w["kind"] == "raster":
+        return raster_mismatch(w)
     p, interval = w["pipeline"], [int(w["interval"][0]), int(w["interval"][1])]
-    pair = make_pair(w["img_seed"], interval, bool(w["masks"]))
+    pair = make_pair(w["img_seed"], interval, bool(w["masks"]), w.get("bits", 5), w.get("shape"))
     whole = run_pipeline(p, *pair, interval)
     if w["kind"] == "flip":
         return flip_mismatch(p, interval, pair, whole)
@@ -295,7 +374,8 @@ def shrink(w):
 def _class(variant, wit, res):
     if res[2] == PARITY:
         return "%s:xcheck:%s" % (variant, PARITY)
-    return "%s:%s%s:%s" % (variant, signature(wit["pipeline"], False), "+masks" if wit["masks"] else "", res[2])
+    dom = "" if int(wit.get("bits", 5)) == 5 else ":%dbit" % int(wit["bits"])
+    return "%s:%s%s:%s%s" % (variant, signature(wit["pipeline"], False), "+masks" if wit["masks"] else "", res[2], dom)
 
 
 def report(rec, wit, res, variant):
@@ -316,10 +396,108 @@ def report(rec, wit, res, variant):
 
 
 # --------------------------------------------------------------------------------------------------------------- run
+def check_pair(rec, p, ident, base_w, pair, interval, crops):
+    """whole run, then every crop (both coordinate variants) and the vertical flip, recorded into rec"""
+    sig = signature(p)
+    masks, img_seed = base_w["masks"], base_w["img_seed"]
+    dom = {} if "bits" not in base_w else {"radiometry_bits": base_w["bits"], "shape": list(base_w["shape"])}
+    try:
+        whole = run_pipeline(p, *pair, interval)
+    except Exception as exc:
+        # not a C13 matter (the property compares two successful framings); counted, not a violation
+        rec.case(key=("whole-failed",) + ident, nontrivial=False,
+                 sample={"pipeline": sig, "error": "%s: %s" % (type(exc).__name__, str(exc)[:120])})
+        return
+    valid = (whole[1] & INVALID_BITS) == 0
+    mrow, mcol = cone(p, interval)
+    for crop in crops:
+        r0, c0, h, w = crop
+        inner_valid = valid[r0 + mrow:r0 + h - mrow, c0 + mcol:c0 + w - mcol]
+        failed = {}
+        for rebased in (False, True):
+            res = crop_mismatch(p, interval, pair, whole, crop, rebased)
+            rec.case(key=ident + (crop, rebased), nontrivial=bool(inner_valid.size and inner_valid.any()),
+                     sample=dict({"pipeline": sig, "interval": interval, "masks": masks, "img_seed": img_seed,
+                                  "crop_r0_c0_h_w": list(crop), "coords": "rebased-at-0" if rebased else "crop-origin",
+                                  "cone_margins_row_col": [mrow, mcol],
+                                  "interior_pixels": int(inner_valid.size), "interior_valid": int(inner_valid.sum())}, **dom))
+            if res is not None:
+                failed[rebased] = res
+        if failed:
+            # both coordinate variants fail -> the crop offset itself matters; else the coordinates do
+            variant = "any-coords" if len(failed) == 2 else ("coords-rebased-0" if True in failed else "coords-at-crop-origin")
+            rebased = True in failed
+            report(rec, dict(base_w, kind="crop", crop=list(crop), rebased=rebased), failed[rebased], variant)
+    res = flip_mismatch(p, interval, pair, whole)
+    rec.case(key=ident + ("flip",), nontrivial=bool(valid.any()),
+             sample=dict({"pipeline": sig, "interval": interval, "masks": masks, "img_seed": img_seed, "kind": "vertical-flip"},
+                         **dom))
+    if res is not None:
+        report(rec, dict(base_w, kind="flip"), res, "flip")
+
+
+def run_rasters(rec, tier, seed, rng):
+    """compute_mean_raster / compute_std_raster: raster of a crop vs crop of the raster, 12-bit images"""
+    hh, ww = HI_SHAPE
+    n = 0
+    for k in range(1 if tier == "quick" else 3):
+        img_seed = int(seed) * 1000 + int(rng.integers(1000))
+        for win, (h, w) in itertools.product((3, 5), [(9, 12)] if tier == "quick" else [(9, 12), (5, 21), (20, 7)]):
+            rows = (0, 1, 37, hh - h) if tier == "quick" else (0, 1, 2, 5, 17, 37, 50, hh - h - 1, hh - h)
+            cols = (0, 1, 31, ww - w) if tier == "quick" else (0, 1, 2, 7, 23, 31, ww - w - 1, ww - w)
+            for fn, src in (("mean_raster", "left"), ("mean_raster", "left*right"), ("std_raster", "left"),
+                            ("std_raster", "right")):
+                for r0, c0 in itertools.product(rows, cols):
+                    wit = {"kind": "raster", "fn": fn, "src": src, "win": win, "img_seed": img_seed, "bits": HI_BITS,
+                           "shape": list(HI_SHAPE), "crop": [r0, c0, h, w]}
+                    res = raster_mismatch(wit)
+                    n += 1
+                    rec.case(key=("raster", fn, src, win, img_seed, r0, c0, h, w), nontrivial=bool(r0 or c0),
+                             sample={"function": "compute_" + fn, "image": src, "window": win, "img_seed": img_seed,
+                                     "radiometry_bits": HI_BITS, "shape": list(HI_SHAPE), "crop_r0_c0_h_w": [r0, c0, h, w]})
+                    if res is not None:
+                        clause = "C13.crop." + res[0]
+                        if r0 and c0 and any(v["clause"] == clause for v in rec.violations):
+                            continue  # a one-coordinate witness of the same clause is already recorded
+                        rec.violation(clause=clause, witness_class=res[2], message=res[1], witness=wit)
+    return n
+
+
+def run_hi(rec, tier, seed, rng):
+    """zncc pipelines on the 12-bit 96x72 pairs; returns (pipelines enumerated, pipelines of the sub-family)"""
+    fam = [p for p in family() if p["matching_cost"]["matching_cost_method"] == "zncc"]
+    if tier == "quick":
+        pipes = [build("zncc", 3, False, "vfit", None, False), build("zncc", 5, False, "quadratic", "median", False),
+                 build("zncc", 3, False, "vfit", None, True)]
+        rest = [p for p in fam if p not in pipes]
+        pipes.append(rest[int(rng.integers(len(rest)))])
+        n_img = 1
+    else:
+        pipes, n_img = fam, 2
+    intervals = [[-3, 2], [-2, 3], [-3, 0], [0, 3], [-2, 2]]
+    for p in pipes:
+        for k in range(n_img):
+            interval = intervals[int(rng.integers(len(intervals)))]
+            masks = bool(rng.integers(2))
+            img_seed = int(seed) * 1000 + int(rng.integers(1000))
+            ident = (signature(p), tuple(interval), masks, img_seed, "%dbit" % HI_BITS)
+            pair = make_pair(img_seed, interval, masks, HI_BITS, HI_SHAPE)
+            base_w = {"img_seed": img_seed, "interval": interval, "masks": masks, "pipeline": p, "bits": HI_BITS,
+                      "shape": list(HI_SHAPE)}
+            check_pair(rec, p, ident, base_w, pair, interval, hi_crops(p, interval, tier, rng))
+    return len(pipes), len(fam)
+
+
 def run(tier: str, seed: int) -> dict:
     rec = Recorder()
     rec.functions.update(_FUNCS)
+    rec.functions.update(_FUNCS_HI)
     rng = np.random.default_rng([int(seed), 1313])
+    t_start, budget = time.time(), (65.0 if tier == "quick" else 1020.0)
+    # second domain first (small, never cut by the time budget): 12-bit radiometry, raster functions then zncc pipelines
+    rng_hi = np.random.default_rng([int(seed), 1313, HI_BITS])
+    n_raster = run_rasters(rec, tier, seed, rng_hi)
+    n_hi, n_hi_fam = run_hi(rec, tier, seed, rng_hi)
     intervals = [[-3, 2], [-2, 3], [-3, 0], [0, 3], [-2, 2]]
     fam = family()
     if tier == "quick":
@@ -330,7 +508,6 @@ def run(tier: str, seed: int) -> dict:
         pipes = [fam[i] for i in rng.permutation(len(fam))]  # unbiased if the time budget cuts the enumeration
         n_img = 2
     seen = set()
-    t_start, budget = time.time(), (65.0 if tier == "quick" else 1020.0)
     done = 0
     for p in pipes:
         if time.time() - t_start > budget:
@@ -347,38 +524,7 @@ def run(tier: str, seed: int) -> dict:
             seen.add(ident)
             pair = make_pair(img_seed, interval, masks)
             base_w = {"img_seed": img_seed, "interval": interval, "masks": masks, "pipeline": p}
-            try:
-                whole = run_pipeline(p, *pair, interval)
-            except Exception as exc:
-                # not a C13 matter (the property compares two successful framings); counted, not a violation
-                rec.case(key=("whole-failed",) + ident, nontrivial=False,
-                         sample={"pipeline": sig, "error": "%s: %s" % (type(exc).__name__, str(exc)[:120])})
-                continue
-            valid = (whole[1] & INVALID_BITS) == 0
-            mrow, mcol = cone(p, interval)
-            for crop in crops_for(p, interval, tier, rng):
-                r0, c0, h, w = crop
-                inner_valid = valid[r0 + mrow:r0 + h - mrow, c0 + mcol:c0 + w - mcol]
-                failed = {}
-                for rebased in (False, True):
-                    res = crop_mismatch(p, interval, pair, whole, crop, rebased)
-                    rec.case(key=ident + (crop, rebased), nontrivial=bool(inner_valid.size and inner_valid.any()),
-                             sample={"pipeline": sig, "interval": interval, "masks": masks, "img_seed": img_seed,
-                                     "crop_r0_c0_h_w": list(crop), "coords": "rebased-at-0" if rebased else "crop-origin",
-                                     "cone_margins_row_col": [mrow, mcol],
-                                     "interior_pixels": int(inner_valid.size), "interior_valid": int(inner_valid.sum())})
-                    if res is not None:
-                        failed[rebased] = res
-                if failed:
-                    # both coordinate variants fail -> the crop offset itself matters; else the coordinates do
-                    variant = "any-coords" if len(failed) == 2 else ("coords-rebased-0" if True in failed else "coords-at-crop-origin")
-                    rebased = True in failed
-                    report(rec, dict(base_w, kind="crop", crop=list(crop), rebased=rebased), failed[rebased], variant)
-            res = flip_mismatch(p, interval, pair, whole)
-            rec.case(key=ident + ("flip",), nontrivial=bool(valid.any()),
-                     sample={"pipeline": sig, "interval": interval, "masks": masks, "img_seed": img_seed, "kind": "vertical-flip"})
-            if res is not None:
-                report(rec, dict(base_w, kind="flip"), res, "flip")
+            check_pair(rec, p, ident, base_w, pair, interval, crops_for(p, interval, tier, rng))
     bound = ("40x60 integer-valued (0..31) synthetic pairs (right = left shifted by 2 in-interval shifts + noise in {-1,0,1}), "
              "optional masks (2%% no-data, 3%% invalid); pipelines = {sad,ssd,census,zncc} x window {3,5} [x cbca(distance 3, "
              "intensity 8), not with zncc] x wta x refinement {none,vfit,quadratic} x filter {none, median 3, bilateral "
@@ -386,8 +532,20 @@ def run(tier: str, seed: int) -> dict:
              "seeded); disparity intervals {[-3,2],[-2,3],[-3,0],[0,3],[-2,2]}; crops = cone + interior {6x8%s} at offsets "
              "from rows {0,1,2,5,max-1,max} x cols {0,1,2,7,12,max-1,max} (quick 4 / thorough up to 10 per pipeline-image), each "
              "with coordinates at the crop origin and re-based at 0; plus the vertical flip of the whole pair. This run: %d of "
-             "%d selected pipelines enumerated within the time budget of %d s"
-             % (len(fam), "" if tier == "quick" else ", 3x13, 11x4", done, len(pipes), budget))
+             "%d selected pipelines enumerated within the time budget of %d s (counted from the start of the run). Second "
+             "domain, run first: 96x72 pairs of the same construction with integer-valued 12-bit radiometry (blocks < 3200 + "
+             "noise < 896, right noise in [-48,48], values 0..4095); %d of the %d zncc pipelines of the family (quick: "
+             "zncc3+vfit, zncc5+quadratic+median, zncc3+vfit+xcheck + 1 seeded; %s) with crops = cone + interior {6x8%s} at "
+             "origins (37,23), (max,max), (1,0)%s, both coordinate variants, plus the vertical flip; and "
+             "compute_mean_raster (of left, of the float32 product left*right) / compute_std_raster (of left, of right), "
+             "windows 3 and 5, on crops %s at rows %s x cols %s of %d image(s): %d raster comparisons"
+             % (len(fam), "" if tier == "quick" else ", 3x13, 11x4", done, len(pipes), budget, n_hi, n_hi_fam,
+                "1 image each" if tier == "quick" else "2 images each", "" if tier == "quick" else ", 3x13",
+                "" if tier == "quick" else " + 3 seeded origins from rows {0,1,2,5,17,37,50,max-1,max} x cols "
+                "{0,1,2,7,23,31,max-1,max}; 3x13 at (50,7) + 1 seeded",
+                "9x12" if tier == "quick" else "9x12, 5x21, 20x7",
+                "{0,1,37,max}" if tier == "quick" else "{0,1,2,5,17,37,50,max-1,max}",
+                "{0,1,31,max}" if tier == "quick" else "{0,1,2,7,23,31,max-1,max}", 1 if tier == "quick" else 3, n_raster))
     rule = ("case = (pipeline, interval, masks, image seed, crop rectangle, coordinate variant) or (..., vertical flip); "
             "whole-image pandora.run vs crop pandora.run (fresh machine, configuration checked by check_pipeline_section, datasets "
             "by check_datasets) compared bit-exactly (nan-aware) for disparity_map and validity_mask on the pixels at least "
@@ -400,7 +558,20 @@ def run(tier: str, seed: int) -> dict:
             "variant that fails (any-coords if both) : diagnosis, where the diagnosis is `xcheck:half-integer-left-disparity@"
             "odd-column-offset` when the differing flag sits on a pixel whose left disparity is x.5 and rint(column index + "
             "disparity) picks different correspondents in the two framings, else `optional steps of the shrunk pipeline : "
-            "matching-cost method`.")
+            "matching-cost method` (`:12bit` appended for the second domain). "
+            "Second domain (12-bit integer radiometry, zncc only; same comparisons, same non-triviality rule): the 5-bit "
+            "images keep every running sum of pandora.img_tools.compute_mean_raster below 2**24, so they cannot tell in "
+            "which precision the integral image is accumulated; with values 0..4095 every pixel, square and left*right "
+            "product is an integer < 2**24 (exact in the float32 images) and every running sum an integer < 2**38 < 2**53, "
+            "so with the float64 integral image each window sum is the exact integer sum of the window whatever precedes it "
+            "in the image, and the window mean / std / zncc cost are one fixed sequence of float64 operations on that "
+            "integer: crop and whole image must agree bit for bit (the property's quantifier is integer-valued radiometry, "
+            "so nothing beyond the statement is demanded), whereas a narrower accumulation rounds (squares sum past 2**24 "
+            "after two rows) differently according to the rows/columns preceding the window, i.e. to the crop origin. "
+            "Raster cases (clauses C13.crop.mean_raster / C13.crop.std_raster): case = (function, source image, window, "
+            "image seed, crop rectangle); raster of the crop compared bit-exactly with the whole-image raster restricted to "
+            "the windows inside the crop; non-trivial = crop origin != (0,0); witness_class = which crop-origin "
+            "coordinates are non-zero (a witness with both non-zero is recorded only if the clause has no witness yet).")
     return rec.result(bound=bound, rule=rule)
 
 
